@@ -670,10 +670,14 @@ func guardDocRules(c *Ctx) {
 			}
 		}
 		if missing != "" {
-			c.S.Note("GUARD-DOCRULES: rule %q skipped, no atom for %s in the defining expressions", r.name, missing)
-			continue
+			// the defining expressions do not look at that fact at all: the classification cannot depend on it.
+			// The rule is still evaluated (the missing atom plays no part); it counts towards the floor only when
+			// every atom was found, so that a re-spelling the abstraction does not follow fails as undecided
+			// rather than passing on too few rules
+			c.S.Note("GUARD-DOCRULES: rule %q evaluated without %s, which does not occur in the defining expressions", r.name, missing)
+		} else {
+			decided++
 		}
-		decided++
 		okAll := true
 		for m := 0; m < 1<<len(flagAtoms); m++ {
 			e2 := map[string]bool{}
@@ -700,10 +704,83 @@ func guardDocRules(c *Ctx) {
 		for _, prop := range []string{"C20", "C03"} {
 			c.S.Decide(okAll, prop, "GUARD-DOCRULES", r.name, c.P.Pos(cx.Decl.Pos()),
 				"classified as "+word[r.complex]+" by the flags' defining expressions",
-				"a schema that is "+r.name+" is classified as "+word[!r.complex]+" by the flags' defining expressions (documented: "+word[r.complex]+")")
+				"a schema that is "+r.name+" is classified as "+word[!r.complex]+" by the flags' defining expressions (documented: "+word[r.complex]+")"+missingNote(missing))
 		}
 	}
 	if decided < 8 {
 		c.S.Undecided("C20", "GUARD-DOCRULES", "floor", "-", fmt.Sprintf("only %d of %d documented rules could be matched to atoms of the defining expressions", decided, len(docRules)))
 	}
+	// the same for the individual flags the complexity rule is made of: what a map, a known type and an extended
+	// object are, at characteristic valuations
+	for _, r := range docFlagRules {
+		fv := byName[r.flag]
+		ff := g.formulaOf(fv)
+		if fv == nil || ff == nil {
+			c.S.Note("GUARD-DOCRULES: flag %s has no single defining expression; rule %q not evaluated", r.flag, r.name)
+			continue
+		}
+		fa := map[string]bool{}
+		ff.atoms(fa)
+		env := map[string]bool{}
+		var free []string
+		for a := range fa {
+			if strings.HasPrefix(a, "flag ") {
+				free = append(free, a)
+				continue
+			}
+			for _, want := range r.trues {
+				if a == want || strings.HasPrefix(a, want+" >") || strings.HasPrefix(a, want+" !=") {
+					env[a] = true
+				}
+			}
+		}
+		sort.Strings(free)
+		if len(free) > 6 {
+			continue
+		}
+		okAll := true
+		for m := 0; m < 1<<len(free); m++ {
+			e2 := map[string]bool{}
+			for k, v := range env {
+				e2[k] = v
+			}
+			for i, a := range free {
+				e2[a] = m&(1<<i) != 0
+			}
+			if ff.eval(e2) != r.expect {
+				okAll = false
+			}
+		}
+		c.S.Decide(okAll, "C20", "GUARD-DOCRULES", r.flag+"/"+r.name, c.P.Pos(fv.Pos()),
+			fmt.Sprintf("%s is %v for %s", r.flag, r.expect, r.name),
+			fmt.Sprintf("the defining expression of %s yields %v for a schema that is %s (documented: %v): schemas of that shape are classified differently from what the rules say, and so is everything that contains them", r.flag, !r.expect, r.name, r.expect))
+	}
+}
+
+// docFlagRules: characteristic valuations for the flags behind the complexity rule. `trues` lists the facts of the
+// schema that hold (all others are false).
+var docFlagRules = []struct {
+	name   string
+	trues  []string
+	flag   string
+	expect bool
+}{
+	{"an empty object closed by additionalProperties: false", []string{"$.schema.AdditionalProperties != nil"}, "IsMap", false},
+	{"an empty object closed by additionalProperties: false", []string{"$.schema.AdditionalProperties != nil"}, "IsExtendedObject", false},
+	{"an object with properties closed by additionalProperties: false", []string{"len($.schema.Properties)", "$.schema.AdditionalProperties != nil"}, "IsExtendedObject", false},
+	{"an object with properties closed by additionalProperties: false", []string{"len($.schema.Properties)", "$.schema.AdditionalProperties != nil"}, "IsMap", false},
+	{"a map (additionalProperties: true)", []string{"$.schema.AdditionalProperties != nil", "$.schema.AdditionalProperties.Allows"}, "IsMap", true},
+	{"a map of schemas", []string{"$.schema.AdditionalProperties != nil", "$.schema.AdditionalProperties.Schema != nil"}, "IsMap", true},
+	{"an object with properties and additionalProperties: true", []string{"len($.schema.Properties)", "$.schema.AdditionalProperties != nil", "$.schema.AdditionalProperties.Allows"}, "IsExtendedObject", true},
+	{"an object with properties and additionalProperties: true", []string{"len($.schema.Properties)", "$.schema.AdditionalProperties != nil", "$.schema.AdditionalProperties.Allows"}, "IsMap", false},
+	{"an allOf composition with additionalProperties: true", []string{"len($.schema.AllOf)", "$.schema.AdditionalProperties != nil", "$.schema.AdditionalProperties.Allows"}, "IsMap", false},
+	{"an object with properties only", []string{"len($.schema.Properties)"}, "IsMap", false},
+	{"an object with properties only", []string{"len($.schema.Properties)"}, "IsExtendedObject", false},
+}
+
+func missingNote(atom string) string {
+	if atom == "" {
+		return ""
+	}
+	return "; the defining expressions never look at " + atom
 }
